@@ -978,6 +978,8 @@ enum XN {
     Switch(Vec<(XN, XN)>, Box<XN>),
     Match(Box<XN>, Vec<(Option<u32>, i64, Option<XN>, XN)>, Box<XN>),
     Yield(Box<XN>),
+    /// `f, g = (|p| e), (|q| e')` : function literals built in temporaries, mutually recursive
+    MFn(Vec<(u32, Vec<u32>, XN)>),
 }
 
 fn xname(n: u32) -> String {
@@ -1036,6 +1038,14 @@ fn xn_sexp(e: &XN) -> String {
             xn_sexp(els)
         ),
         XN::Yield(a) => format!("(yield {})", xn_sexp(a)),
+        XN::MFn(fs) => format!(
+            "(masg ({}) ({}))",
+            fs.iter().map(|(f, _, _)| format!("(id {})", f)).collect::<Vec<_>>().join(" "),
+            fs.iter()
+                .map(|(_, ps, e)| format!("(par (fn ({}) ({})))", ps.iter().map(|p| p.to_string()).collect::<Vec<_>>().join(" "), xn_sexp(e)))
+                .collect::<Vec<_>>()
+                .join(" ")
+        ),
     }
 }
 
@@ -1052,6 +1062,14 @@ fn xn_koto(e: &XN) -> String {
         XN::Asg(x, a) => format!("{} = {}", xname(*x), xn_koto(a)),
         XN::Call(g, args) => format!("{}({})", xname(*g), args.iter().map(xn_koto).collect::<Vec<_>>().join(", ")),
         XN::Yield(a) => format!("yield {}", xn_koto(a)),
+        XN::MFn(fs) => format!(
+            "{} = {}",
+            fs.iter().map(|(f, _, _)| xname(*f)).collect::<Vec<_>>().join(", "),
+            fs.iter()
+                .map(|(_, ps, e)| format!("(|{}| {})", ps.iter().map(|p| xname(*p)).collect::<Vec<_>>().join(", "), xn_koto(e)))
+                .collect::<Vec<_>>()
+                .join(", ")
+        ),
         XN::MAsg(ts, es) => {
             let t: Vec<String> = ts
                 .iter()
@@ -1221,6 +1239,7 @@ impl<'a> XGen<'a> {
                 if fn_depth > 0 { 10 } else { 0 },
                 if self.generator { 10 } else { 0 },
                 8,
+                if fn_depth > 0 { 6 } else { 0 },
             ]);
             match k {
                 0 => {
@@ -1373,22 +1392,70 @@ impl<'a> XGen<'a> {
                 }
                 8 => {
                     // nested closure (1–3 deep), called later
-                    let f = self.fresh();
-                    let ar = self.rng.below(2);
+                    // the name is fresh or shadows a readable variable of the enclosing scopes
+                    let f = if !assignable.is_empty() && self.rng.chance(1, 3) { assignable[self.rng.below(assignable.len())] } else { self.fresh() };
+                    let recursive = self.rng.chance(1, 3);
+                    let ar = if recursive { 1 } else { self.rng.below(2) };
                     let ps: Vec<u32> = (0..ar).map(|_| self.fresh()).collect();
-                    let mut i1 = ints.clone();
+                    let mut i1: Vec<u32> = ints.iter().copied().filter(|x| *x != f).collect();
                     i1.extend(ps.iter().copied());
                     let was_gen = self.generator;
                     self.generator = false;
                     let n1 = 1 + self.rng.below(3);
                     self.first_line_as_ok = true;
-                    let mut body = self.lines(&mut i1, &mut funs.clone(), &[], fn_depth - 1, 1, n1);
-                    body.push(self.ex(&mut i1, funs, &[], 1, false));
+                    let mut inner_funs: Vec<(u32, usize)> = funs.iter().copied().filter(|(g, _)| *g != f).collect();
+                    let mut body = self.lines(&mut i1, &mut inner_funs, &[], fn_depth - 1, 1, n1);
+                    if recursive {
+                        // … if p < 1 then base else f(p - 1)
+                        let base = self.ex(&mut i1, &inner_funs, &[], 1, true);
+                        body.push(XN::Ite(
+                            Box::new(XN::Op("<", Box::new(XN::Var(ps[0])), Box::new(XN::Lit(1)))),
+                            Box::new(base),
+                            Box::new(XN::Call(f, vec![XN::Op("-", Box::new(XN::Var(ps[0])), Box::new(XN::Lit(1)))])),
+                        ));
+                    } else {
+                        body.push(self.ex(&mut i1, &inner_funs, &[], 1, false));
+                    }
                     self.generator = was_gen;
                     out.push(XN::Asg(f, Box::new(XN::Fn(ps, body))));
+                    ints.retain(|x| *x != f);
+                    funs.retain(|(g, _)| *g != f);
                     funs.push((f, ar));
                 }
                 9 => out.push(XN::Yield(Box::new(self.ex(ints, funs, &assignable, 1, false)))),
+                11 => {
+                    // mutual recursion through a multi-assignment: the function values are built in
+                    // temporaries; the names may shadow variables of the enclosing scopes
+                    let n_f = 2 + self.rng.below(2);
+                    let mut names: Vec<u32> = vec![];
+                    for _ in 0..n_f {
+                        let cands: Vec<u32> = assignable.iter().copied().filter(|x| !names.contains(x)).collect();
+                        let x = if !cands.is_empty() && self.rng.chance(1, 2) { cands[self.rng.below(cands.len())] } else { self.fresh() };
+                        names.push(x);
+                    }
+                    let readable: Vec<u32> = ints.iter().copied().filter(|x| !names.contains(x)).collect();
+                    let mut fs = vec![];
+                    for i in 0..n_f {
+                        let p = self.fresh();
+                        let mut r = readable.clone();
+                        r.push(p);
+                        let base = self.atom(&r);
+                        let other = names[(i + 1 + self.rng.below(n_f - 1)) % n_f];
+                        let callee = if self.rng.chance(1, 4) { names[i] } else { other };
+                        let body = XN::Ite(
+                            Box::new(XN::Op("<", Box::new(XN::Var(p)), Box::new(XN::Lit(1)))),
+                            Box::new(base),
+                            Box::new(XN::Call(callee, vec![XN::Op("-", Box::new(XN::Var(p)), Box::new(XN::Lit(1)))])),
+                        );
+                        fs.push((names[i], vec![p], body));
+                    }
+                    out.push(XN::MFn(fs));
+                    ints.retain(|x| !names.contains(x));
+                    funs.retain(|(f, _)| !names.contains(f));
+                    for x in names {
+                        funs.push((x, 1));
+                    }
+                }
                 _ => out.push(self.ex(ints, funs, &assignable, 2, false)),
             }
         }
@@ -1417,9 +1484,15 @@ impl CapxCase {
     }
     /// script A (closure); `extra` = free variables passed as parameters instead (script B)
     fn koto(&self, extra: Option<&[u32]>) -> String {
+        self.koto_with(extra, None)
+    }
+    /// `keep_outer`: only these outer variables are defined (script C)
+    fn koto_with(&self, extra: Option<&[u32]>, keep_outer: Option<&[u32]>) -> String {
         let mut s = String::new();
         for (x, v) in &self.outer {
-            s.push_str(&format!("{} = {}\n", xname(*x), v));
+            if keep_outer.map(|k| k.contains(x)).unwrap_or(true) {
+                s.push_str(&format!("{} = {}\n", xname(*x), v));
+            }
         }
         let mut ps = self.params.clone();
         if let Some(e) = extra {
@@ -1436,7 +1509,9 @@ impl CapxCase {
             }
         }
         for (x, _) in &self.outer {
-            s.push_str(&format!("{} = 1000\n", xname(*x)));
+            if keep_outer.map(|k| k.contains(x)).unwrap_or(true) {
+                s.push_str(&format!("{} = 1000\n", xname(*x)));
+            }
         }
         if self.generator {
             s.push_str(&format!("{}({}).to_tuple()\n", xname(self.f), args.join(", ")));
@@ -1541,6 +1616,19 @@ fn capx_check(rt: &mut Runtime, case: &CapxCase, model: &str) -> Result<(), (Str
             format!("closure: {} | {}  ;  parameters: {} | {}", ta.join(" "), ra, tb.join(" "), rb),
             model.to_string(),
         ));
+    }
+    // (D3) a function does not depend on outer variables that are not free in it: the same script
+    // without them (e.g. without same-named variables shadowed by inner definitions)
+    if free_outer.len() < case.outer.len() {
+        let c = case.koto_with(None, Some(&free_outer));
+        let (rc, tc) = rt.run(&c);
+        if ra != rc || ta != tc {
+            return Err((
+                "the closure depends on an outer variable that is not free in it: removing the outer variables it does not read changes the result (shadowing inner definitions must win)".into(),
+                format!("with all outer variables: {} | {}  ;  only the free ones: {} | {}", ta.join(" "), ra, tc.join(" "), rc),
+                model.to_string(),
+            ));
+        }
     }
     Ok(())
 }
